@@ -75,6 +75,29 @@ CLAIMS.update({
             'call-graph reachability with gates + effect classification of resolved callees + constructor/argument provenance', '§4 C15'),
 })
 
+CLAIMS.update({
+    'C12': ('other',
+            'Decides the structural clauses of node sharing: in the node compiler every encoder call is preceded by a cache lookup of that very node that missed, a miss records the new address in the returned cell, a hit returns the cached address without emitting; a hit requires an occupied cell whose node equals the probe under the derived all-fields equality, and the bucket function reads exactly the compared fields; the cache has positive literal geometry, its table is sized only in the constructor, the bucket is hash mod the row count and a row is [stride*bucket, +stride); under the MRU moves (swap / rotate-to-front as a permutation domain) the refreshed cell is the cell handed back; the compiler is called once per frozen node and once for the root.',
+            'Does not decide minimality, the trie bound or sharing ratios as quantities (they need the run-time contents of the cache and the classical minimal-acyclic-automaton argument); "no eviction" is a precondition of the property.',
+            'path-sensitive MIR rules (must-precede, def-use of the returned cell) + permutation domain + constant/field provenance', '§4 C12'),
+    'C13': ('other',
+            'Decides who-may-grow: every call of a growing container method reachable from add/insert/finish whose receiver is rooted in builder state is on an allow-list of structurally bounded sites (clear-dominance re-checked where the bound depends on it); the container-typed fields of all builder-owned types equal the confirmed inventory; the never-forgetting registry is not linked.',
+            'Measured heap is not decided; the bounds of the allow-listed sites (stack depth = key length, <= 256 transitions per node) are argued from the stack discipline, not measured. Fresh allocations that replace a buffer are churn and not flagged.',
+            'call-graph effect analysis (growth methods) with receiver access paths + struct-field inventory', '§4 C13'),
+    'C14': ('other',
+            'Decides who-may-allocate / who-may-grow: no allocating or growing std callee is reachable from Fst::new / get / contains_key and their wrappers; every growth site reachable from the 22 Streamer::next implementations rooted in stream state is allow-listed with its bound (lock-step depth, clear-dominance, one slot per stream); no fresh allocation per step; container fields of the stream types equal the confirmed inventory.',
+            'Measured heap is not decided; calls into the caller\'s AsRef / automaton / streams are opaque and assumed non-allocating.',
+            'call-graph effect analysis (allocation and growth) with receiver access paths + struct-field inventory', '§4 C14'),
+    'C18': ('other',
+            'Decides hint soundness and the Boolean language clauses of the combinators: truth tables of is_match / can_match / will_always_match are reconstructed from MIR and checked by exhaustive enumeration over all semantic worlds and all sound component hints; StartsWith per state variant; leaf hints by closure/disjointness of the hint classes; componentwise start/accept; &T forwards each method to its namesake.',
+            'Does not decide that Str accepts exactly its string or Subsequence exactly the supersequences as languages over all byte strings (only the advance/stay conditions and hint classes).',
+            'Boolean truth-table reconstruction from short-circuit CFGs + exhaustive propositional entailment', '§4 C18'),
+    'C19': ('other',
+            'Decides structural necessary conditions in fst-bin: temp-file name templates are injective in (phase, generation, index) with index = enumerate counter and generation = per-round counter; the registered value mergers are +, max, min and the union fold is seeded with the first value; equal keys are resolved only through the merger in both phases, no pair de-duplication, no builder error swallowed; no mutable statics or unsafe Send/Sync, the collector drops its sender before draining.',
+            'Does not decide equality of outputs over all schedules as an observation (thread interleavings are not explored); relies on associativity/commutativity of +, max, min and on crossbeam channel semantics.',
+            'format-template decoding from compile-time constants + path-sensitive MIR rules + recognised-closure forms', '§4 C19'),
+})
+
 NOT_APPLICABLE = {
     'C17': 'Acceptance is a property of a DFA constructed at run time from the query; no clause has a structural counterpart that a sound static rule within reach could decide (DESIGN.md §6).',
 }
